@@ -1,5 +1,6 @@
 import XmppModel.Model.Serve
 import XmppModel.Lemmas.Serve
+import XmppModel.Lemmas.ServeView
 /-!
 # C07 — every incoming get/set IQ is answered exactly once; replies are never answered
 
@@ -220,6 +221,175 @@ theorem C07_written (cfg : Cfg) (n : Name) (as : List Attr) (rs1 : RS) (prog : P
   · cases h
   · cases h
   · split at h <;> cases h
+  · cases h
+  · cases h
+
+/-! ### several requests in one session -/
+
+theorem depthAfter_append : ∀ (a b : List Tok) (d d' : Nat), depthAfter d a = some d' →
+    depthAfter d (a ++ b) = depthAfter d' b := by
+  intro a
+  induction a with
+  | nil => intro b d d' h; simp [depthAfter] at h; subst h; rfl
+  | cons t ts ih =>
+    intro b d d' h
+    cases t with
+    | start n as => simp only [depthAfter, List.cons_append] at h ⊢; exact ih b _ _ h
+    | stop n =>
+      cases d with
+      | zero => simp [depthAfter] at h
+      | succ d => simp only [depthAfter, List.cons_append] at h ⊢; exact ih b _ _ h
+    | chars s => simp only [depthAfter, List.cons_append] at h ⊢; exact ih b _ _ h
+    | comment s => simp only [depthAfter, List.cons_append] at h ⊢; exact ih b _ _ h
+    | procInst x y => simp only [depthAfter, List.cons_append] at h ⊢; exact ih b _ _ h
+    | directive s => simp only [depthAfter, List.cons_append] at h ⊢; exact ih b _ _ h
+
+/-- what the session adds is nothing or the (whole, balanced) automatic reply -/
+theorem autoReply_balanced (cfg : Cfg) (n : Name) (as : List Attr) (wrote : Bool) (d : List Tok)
+    (h : autoReply cfg n as wrote = some d) : depthAfter 0 d = some 0 := by
+  unfold autoReply at h
+  split at h
+  · cases hr : replyTo cfg as with
+    | none => simp [hr] at h
+    | some to => simp [hr] at h; subst h; cases to <;> simp [defaultReply, depthAfter]
+  · simp at h; subst h; rfl
+
+/-- the replies to `id` in a concatenation of balanced segments are the replies of the
+segments, in order -/
+theorem topReplies_flatten (id : String) : ∀ (segs : List (List Tok)),
+    (∀ s ∈ segs, depthAfter 0 s = some 0) →
+    topReplies id segs.flatten = segs.flatMap (topReplies id) := by
+  intro segs
+  induction segs with
+  | nil => intro _; rfl
+  | cons s segs ih =>
+    intro h
+    have hs := h s (by simp)
+    have := ih (fun x hx => h x (by simp [hx]))
+    simp only [List.flatten_cons, List.flatMap_cons]
+    rw [← this]
+    simp [topReplies, topStarts_append s segs.flatten 0 0 hs]
+
+/-- **answered exactly once per request across a session**: several well-formed elements in
+one session (requests, replies, other stanzas, in any order) followed by the closing tag, all
+handlers writing whole elements and returning nil.  For any one of them that is a get/set iq
+`c` with (normalised) id `rid`: if no *other* invocation's output contains a top-level reply
+with that id, then the replies to `rid` on the wire of the whole session are exactly the
+replies of `c`'s own handler, or — if it wrote none — exactly one automatic error -/
+theorem C07_session_answered_once (cfg : Cfg) (pre post : List Case) (c : Case) (junk : List Tok)
+    (hok : ∀ x ∈ pre ++ c :: post, x.Ok cfg)
+    (hbal : ∀ x ∈ pre ++ c :: post, depthAfter 0 (writesOf x.prog.ops) = some 0)
+    (hiq : isIq c.n = true) (hty : isRequestTyp (getTyp (blankFrom cfg c.n c.as)) = true)
+    (to : Option String) (hto : replyTo cfg (blankFrom cfg c.n c.as) = some to)
+    (hothers : ∀ x ∈ pre ++ post, topReplies (getId (blankFrom cfg c.n c.as)) x.written = []) :
+    topReplies (getId (blankFrom cfg c.n c.as))
+        (serve cfg ((pre ++ c :: post).flatMap Case.toks ++ .stop ⟨nsStream, "stream"⟩ :: junk)
+          ((pre ++ c :: post).map (·.prog))).written
+      = (if topReplies (getId (blankFrom cfg c.n c.as)) (writesOf c.prog.ops) = []
+          then [defaultStart (getId (blankFrom cfg c.n c.as)) to]
+          else topReplies (getId (blankFrom cfg c.n c.as)) (writesOf c.prog.ops)) := by
+  -- the session's output is the concatenation of the per-element outputs (C08)
+  have hserve : (serve cfg ((pre ++ c :: post).flatMap Case.toks ++ .stop ⟨nsStream, "stream"⟩ :: junk)
+      ((pre ++ c :: post).map (·.prog))).written = ((pre ++ c :: post).map Case.written).flatten := by
+    have hlen : (pre ++ c :: post).length ≤ ((pre ++ c :: post).flatMap Case.toks).length := by
+      generalize pre ++ c :: post = cs
+      induction cs with
+      | nil => simp
+      | cons x cs ih =>
+        rw [List.flatMap_cons, List.length_append]
+        simp only [Case.toks, List.length_cons]; omega
+    unfold serve
+    obtain ⟨f, hf⟩ : ∃ f, ((pre ++ c :: post).flatMap Case.toks ++ Tok.stop ⟨nsStream, "stream"⟩ :: junk).length + 1
+        = (f + 1) + (pre ++ c :: post).length :=
+      ⟨((pre ++ c :: post).flatMap Case.toks).length - (pre ++ c :: post).length + junk.length + 1, by
+        rw [List.length_append, List.length_cons]; omega⟩
+    rw [hf]
+    simp only [RS.init]
+    rw [serveF_cases cfg (pre ++ c :: post) (f + 1) 0 _ hok]
+    simp [serveF, handleInputStream, RS.next, verdict, nsStream, List.flatMap_def]
+  have hseg : ∀ s ∈ (pre ++ c :: post).map Case.written, depthAfter 0 s = some 0 := by
+    intro s hs
+    obtain ⟨x, hx, rfl⟩ := List.mem_map.mp hs
+    have h1 := hbal x hx
+    have h2 := autoReply_balanced _ _ _ _ _ (hok x hx).add
+    simp only [Case.written]
+    rw [depthAfter_append _ _ 0 0 h1]; exact h2
+  rw [hserve, topReplies_flatten _ _ hseg]
+  -- only `c`'s own segment contributes
+  have hz : ∀ l : List Case, (∀ x ∈ l, topReplies (getId (blankFrom cfg c.n c.as)) x.written = []) →
+      (l.map Case.written).flatMap (topReplies (getId (blankFrom cfg c.n c.as))) = [] := by
+    intro l hl
+    induction l with
+    | nil => rfl
+    | cons x l ih =>
+      simp only [List.map_cons, List.flatMap_cons]
+      rw [hl x (by simp), ih (fun y hy => hl y (by simp [hy]))]; rfl
+  simp only [List.map_append, List.map_cons, List.flatMap_append, List.flatMap_cons]
+  rw [hz pre (fun x hx => hothers x (by simp [hx])), hz post (fun x hx => hothers x (by simp [hx]))]
+  simp only [List.nil_append, List.append_nil]
+  -- and for `c` itself this is `C07_answered_once`
+  obtain ⟨d, hd, hrep⟩ := C07_answered_once cfg c.n (blankFrom cfg c.n c.as) (writesOf c.prog.ops) hiq hty
+    (hbal c (by simp)) to hto
+  have hadd := (hok c (by simp)).add
+  rw [hd] at hadd
+  injection hadd with hadd
+  simp only [Case.written, ← hadd]
+  exact hrep
+
+/-! ### pending local requests and handlers that return an error -/
+
+theorem isRequest_not_reply (t : String) (h : isRequestTyp t = true) : isReplyTyp t = false := by
+  simp only [isRequestTyp, Bool.or_eq_true, beq_iff_eq] at h
+  rcases h with h | h <;> simp [isReplyTyp, h]
+
+/-- **whatever is pending**: an incoming element whose type is not result / error — in
+particular every get and set — never consults the table of pending local requests: for every
+table (any ids, equal to the element's id or not) the step is the one of
+`handleInputStream`, the table is unchanged and no waiter receives anything.  All the
+theorems above therefore hold with any number of local requests outstanding. -/
+theorem C07_requests_ignore_pending (cfg : Cfg) (pend : List Pend) (rs : RS) (prog : Prog)
+    (n : Name) (as : List Attr) (rs1 : RS)
+    (hnext : ({ rs with dOut := 0, sticky := none } : RS).next = (.tok (.start n as), rs1))
+    (hty : isReplyTyp (getTyp (blankFrom cfg n as)) = false) :
+    handleInputStreamP cfg pend rs prog = (handleInputStream cfg rs prog, pend, none) := by
+  simp [handleInputStreamP, deliveredTo, hnext, hty]
+
+/-- with nothing pending the table plays no role at all (the `serve` of the other theorems) -/
+theorem C07_no_pending (cfg : Cfg) (rs : RS) (prog : Prog) :
+    handleInputStreamP cfg [] rs prog = (handleInputStream cfg rs prog, [], none) := by
+  unfold handleInputStreamP deliveredTo
+  generalize ({ rs with dOut := 0, sticky := none } : RS).next = r
+  obtain ⟨rd, rs1⟩ := r
+  cases rd with
+  | tok t =>
+    cases t <;> simp [pendMatch]
+  | err e => simp
+  | eof => simp
+
+/-- a response handed to a waiting local request is not given to the handler and nothing is
+written for it: **replies are never answered**, also on this path -/
+theorem C07_delivered_silent (cfg : Cfg) (pend : List Pend) (rs : RS) (prog : Prog)
+    (p : Pend) (rs1 : RS) (h : deliveredTo cfg pend rs = some (p, rs1)) :
+    (handleInputStreamP cfg pend rs prog).1.inv = none ∧
+    (∃ w, (match (handleInputStreamP cfg pend rs prog).1 with
+            | .next _ w _ => w | .stop _ w _ => w) = w ∧ w = []) := by
+  unfold handleInputStreamP
+  rw [h]
+  simp only
+  split <;> simp [Step.inv]
+
+/-- **a handler that returns an error value** (a plain error, `io.EOF`, a `stanza.Error`, a
+stream error), after writing anything: the session adds nothing — no automatic reply, not for
+requests and not for replies — keeps what the handler wrote, and ends with that error (a
+stream error is returned as such, everything else as the handler's error) -/
+theorem C07_handler_error (cfg : Cfg) (n : Name) (as : List Attr) (rs1 : RS) (prog : Prog)
+    (h : prog.ret = .fail ∨ prog.ret = .eof ∨ prog.ret = .stanzaErr ∨ prog.ret = .streamErr) :
+    ∃ inv e, handleElem cfg n as rs1 prog = .stop (some inv) (writesOf prog.ops) (.error e) ∧
+      (prog.ret = .streamErr → e = .streamError "policy-violation") ∧
+      (prog.ret ≠ .streamErr → e = .handler) := by
+  unfold handleElem
+  simp only [runOps_ws]
+  rcases h with h | h | h | h <;> simp [h, encAll_out, WS.init]
 
 /-! ### with the multiplexer in front -/
 
